@@ -9,7 +9,7 @@ From Coq Require Import NArith ZArith String List Bool.
 Import ListNotations.
 From Fit Require Import Model.Profile Model.ProfileRows Model.ProfileCheck Proofs.ProfileCheckProofs.
 From Fit Require Import Inst.ProfileInst Inst.TypedefInst Inst.NumsInst.
-From Fit Require gen.ProfileSpec gen.Factory gen.FactoryNames gen.ProfileTypes gen.Nums gen.Typedef.
+From Fit Require gen.ProfileSpec gen.Factory gen.FactoryNames gen.ProfileTypes gen.Nums gen.Typedef gen.TypedefRun.
 Open Scope N_scope.
 
 (* (2) every message x field x component x sub-field x map: number, profile type, base type, array flag, accumulate,
@@ -39,6 +39,13 @@ Theorem C17_typedef_roundtrip :
   (forall td, In td Typedef.typedefs -> typedef_good td) /\ NoDup (map td_name Typedef.typedefs).
 Proof. exact typedefs_good. Qed.
 Print Assumptions C17_typedef_roundtrip.
+
+(* (3a) tie of the translated case lists to the running code: for every element c of every ListX() the triple
+   (value, c.String(), XFromString(c.String())) computed from Gen.Typedef = the triple the running package returns *)
+Theorem C17_typedef_translation_agrees_with_implementation :
+  typedef_run_agrees_b Typedef.typedefs TypedefRun.runtime_typedefs = true.
+Proof. exact typedef_run_agrees. Qed.
+Print Assumptions C17_typedef_translation_agrees_with_implementation.
 
 (* (3a') every type of the Types sheet (except fit_base_type, hand written in profile/basetype) has exactly one generated
    type whose String cases are the sheet's (value name, value) rows in order (RULE 11), with the FIT invalid value *)
